@@ -30,27 +30,80 @@ package nsqlookupd
 //@   ensures[errors] result2 != nil ==> isFatal(result2, "E_INVALID") || isFatal(result2, "E_BAD_TOPIC") || isFatal(result2, "E_BAD_CHANNEL")
 //@   ensures[ok] result2 == nil ==> len(params) >= 1 && result0 == params[0] && (len(params) >= 2 ==> result1 == params[1]) && (len(params) < 2 ==> result1 == "")
 
+// (round 3, area C) r3cConnPeer(client): once identified, the connection's peer id is the remote address of ITS OWN connection. No command
+// files or removes a producer under any other id ("cannot change registrations that belong to another connection"): the counters
+// r3cAddOther / r3cRemOther of AddProducer / RemoveProducer calls for an id other than the watched one stay put when the watched id is
+// this connection's address.
+//@ pred r3cConnPeer(client *ClientV1) := client.peerInfo == nil || client.peerInfo.id == addrString(remoteOf(client.Conn))
+//@ modset r3cExecFrame := client.peerInfo, PeerInfo.lastUpdate, lastNow, rPos, r3cAddProdSet, r3cRemProdSet, mRemCalls, mFRTopic, removedSinceLookup,
+//@      RegistrationDB.registrationMap, mapstore(map[Registration]ProducerMap), mapstore(ProducerMap)
 //@ func (p *LookupProtocolV1) Exec(client *ClientV1, reader *bufio.Reader, params []string) ([]byte, error)
-//@   props C15
+//@   props C15 C14
 //@   requires validP(p) && validC(client) && len(params) >= 1
+//@   requires[peer-is-connection] r3cConnPeer(client)
 //@   ensures fatalOrNil(result1)
+//@   ensures[peer-is-connection] r3cConnPeer(client)
+//@   ensures[own-registrations-only] addrString(remoteOf(client.Conn)) == r3cWatchPeer ==> r3cRemOther == old(r3cRemOther) && r3cAddOther == old(r3cAddOther)
+//@   modifies r3cExecFrame
 
 //@ func (p *LookupProtocolV1) PING(client *ClientV1, params []string) ([]byte, error)
 //@   props C15
 //@   requires validP(p) && validC(client)
 //@   ensures fatalOrNil(result1)
+//@   modifies PeerInfo.lastUpdate, lastNow
 
+// (round 3, area C) REGISTER topic [channel]: the peer is filed under the topic registration and, when a channel is named, under the channel
+// registration as well; nothing is filed for another peer, nothing is removed, a refused command changes nothing.
 //@ func (p *LookupProtocolV1) REGISTER(client *ClientV1, reader *bufio.Reader, params []string) ([]byte, error)
-//@   props C15
+//@   props C15 C14
 //@   requires validP(p) && validC(client)
 //@   ensures fatalOrNil(result1)
 //@   ensures[identify-first] old(client.peerInfo) == nil ==> isFatal(result1, "E_INVALID")
+//@   ensures[own-registrations-only] r3cOwn(old(client.peerInfo)) ==> r3cAddOther == old(r3cAddOther)
+//@   ensures[rejected-changes-nothing] result1 != nil ==> r3cAddOther == old(r3cAddOther) && r3cAddProdSet == old(r3cAddProdSet)
+//@   ensures[never-removes] mRemCalls == old(mRemCalls) && mTombCalls == old(mTombCalls) && mAddCalls == old(mAddCalls) && r3cRemOther == old(r3cRemOther) && r3cRemProdSet == old(r3cRemProdSet) && client.peerInfo == old(client.peerInfo)
+//@   ensures[topic-registered] result1 == nil && r3cOwn(old(client.peerInfo)) ==>
+//@        forall k Registration :: {k.Category} k.Category == "topic" && k.Key == params[0] && k.SubKey == "" ==> setin(r3cAddProdSet, k)
+//@   ensures[channel-registered] result1 == nil && r3cOwn(old(client.peerInfo)) && r3cChanArg(params) != "" ==>
+//@        forall k Registration :: {k.Category} k.Category == "channel" && k.Key == params[0] && k.SubKey == params[1] ==> setin(r3cAddProdSet, k)
+//@   modifies r3cAddProdSet, RegistrationDB.registrationMap, mapstore(map[Registration]ProducerMap), mapstore(ProducerMap)
 
+// (round 3, area C) UNREGISTER topic [channel]. r3cOwn(client): the connection's peer id is the watched id r3cWatchPeer (arbitrary).
+//   with a channel: the peer is removed from the channel registration; the registration itself is dropped iff nobody is left AND the channel is
+//   ephemeral; without a channel: the peer is removed from EVERY channel registration found for the topic (FindRegistrations [complete]) and
+//   from the topic registration, which is dropped iff nobody is left AND the topic is ephemeral. No other peer is removed from anything
+//   ("cannot change registrations that belong to another connection"), a refused command changes nothing.
+//@ pred r3cOwn(pi *PeerInfo) := pi != nil && pi.id == r3cWatchPeer
+//@ fn r3cChanArg(params []string) string := len(params) >= 2 ? params[1] : ""
 //@ func (p *LookupProtocolV1) UNREGISTER(client *ClientV1, reader *bufio.Reader, params []string) ([]byte, error)
-//@   props C15
+//@   props C15 C14
 //@   requires validP(p) && validC(client)
 //@   ensures fatalOrNil(result1)
 //@   ensures[identify-first] old(client.peerInfo) == nil ==> isFatal(result1, "E_INVALID")
+//@   ensures[own-registrations-only] r3cOwn(old(client.peerInfo)) ==> r3cRemOther == old(r3cRemOther)
+//@   ensures[rejected-changes-nothing] result1 != nil ==> mRemCalls == old(mRemCalls) && r3cRemAttempts == old(r3cRemAttempts) && r3cRemOther == old(r3cRemOther) && r3cRemProdSet == old(r3cRemProdSet)
+//@   ensures[never-adds] mAddCalls == old(mAddCalls) && mTombCalls == old(mTombCalls) && client.peerInfo == old(client.peerInfo)
+//@   ensures[channel-unregistered] result1 == nil && r3cOwn(old(client.peerInfo)) && r3cChanArg(params) != "" ==>
+//@        forall k Registration :: {k.Category} k.Category == "channel" && k.Key == params[0] && k.SubKey == params[1] ==> setin(r3cRemProdSet, k)
+//@   ensures[ephemeral-channel-removed-when-empty] result1 == nil && r3cChanArg(params) != "" ==>
+//@        (r3cLastLeft == 0 && isEph(params[1]) ==> r3cRemAttempts == old(r3cRemAttempts) + 1 && r3cLastAttempt.Category == "channel" && r3cLastAttempt.Key == params[0] && r3cLastAttempt.SubKey == params[1]) &&
+//@        (!(r3cLastLeft == 0 && isEph(params[1])) ==> r3cRemAttempts == old(r3cRemAttempts) && mRemCalls == old(mRemCalls))
+//@   ensures[topic-unregistered] result1 == nil && r3cOwn(old(client.peerInfo)) && r3cChanArg(params) == "" ==> mFRChanKey == params[0] && mFRChanSub == "*" &&
+//@        (forall i int :: {mFRChan[i]} 0 <= i && i < len(mFRChan) ==> setin(r3cRemProdSet, mFRChan[i])) &&
+//@        (forall k Registration :: {k.Category} k.Category == "topic" && k.Key == params[0] && k.SubKey == "" ==> setin(r3cRemProdSet, k))
+//@   ensures[ephemeral-topic-removed-when-empty] result1 == nil && r3cChanArg(params) == "" ==>
+//@        (r3cLastLeft == 0 && isEph(params[0]) ==> r3cRemAttempts == old(r3cRemAttempts) + 1 && r3cLastAttempt.Category == "topic" && r3cLastAttempt.Key == params[0] && r3cLastAttempt.SubKey == "") &&
+//@        (!(r3cLastLeft == 0 && isEph(params[0])) ==> r3cRemAttempts == old(r3cRemAttempts) && mRemCalls == old(mRemCalls))
+//   "ephemeral keys removed WHEN EMPTY": a registration that UNREGISTER removes holds no producer at the moment it is removed (so no
+//   other connection's registration is wiped with it). FAILS on the unchanged code - GENUINE DEFECT, see NOTES (the emptiness test and
+//   the removal are two critical sections; replay/lookupd_ephemeral_unregister_race_test.go).
+//@   ensures[drops-only-empty-registrations] mRemCalls > old(mRemCalls) ==> r3cLastDropped == 0
+//@   modifies mRemCalls, mFRTopic, removedSinceLookup, r3cRemProdSet, RegistrationDB.registrationMap, mapstore(map[Registration]ProducerMap), mapstore(ProducerMap)
+//@   loop 0
+//@     invariant[found] registrations == mFRChan && fresh(registrations) && mFRChanKey == topic && mFRChanSub == "*" && topic == params[0] && channel == "" && r3cChanArg(params) == ""
+//@     invariant[unchanged] client.peerInfo == old(client.peerInfo) && client.peerInfo != nil && mRemCalls == old(mRemCalls) && mAddCalls == old(mAddCalls) && mTombCalls == old(mTombCalls) && rangeindex < len(registrations)
+//@     invariant[own-only] r3cOwn(client.peerInfo) ==> r3cRemOther == old(r3cRemOther)
+//@     invariant[removed-so-far] r3cOwn(client.peerInfo) ==> forall i int :: {mFRChan[i]} 0 <= i && i <= rangeindex ==> setin(r3cRemProdSet, mFRChan[i])
 
 //@ func (p *LookupProtocolV1) IDENTIFY(client *ClientV1, reader *bufio.Reader, params []string) ([]byte, error)
 //@   props C15
@@ -59,23 +112,58 @@ package nsqlookupd
 //@   ensures[once] old(client.peerInfo) != nil ==> isFatal(result1, "E_INVALID")
 //@   ensures[identity] result1 == nil ==> client.peerInfo != nil && client.peerInfo.id == addrString(remoteOf(client.Conn))
 //@   ensures[rejected-unchanged] result1 != nil ==> client.peerInfo == old(client.peerInfo)
+//@   ensures[own-registrations-only] addrString(remoteOf(client.Conn)) == r3cWatchPeer ==> r3cAddOther == old(r3cAddOther)
+//@   modifies client.peerInfo, lastNow, rPos, r3cAddProdSet, RegistrationDB.registrationMap, mapstore(map[Registration]ProducerMap), mapstore(ProducerMap)
 
 // When the connection ends - for whatever reason - the peer's registrations are looked up and each
 // one is removed (the look-up and one removal per returned key happen on every path to the return).
 //@ ghost lookedUpID string
 //@ ghost lookedUpLen int
 //@ ghost removedSinceLookup int
+// (round 3, area C) r3cWatchPeer: an arbitrary but fixed peer id (a ghost nothing ever assigns: every clause that mentions it holds for
+// every id). r3cRemProdSet: the registrations k for which RemoveProducer(k, r3cWatchPeer) has been called (grows only); r3cRemOther: the
+// number of RemoveProducer calls for any OTHER peer id; r3cLastLeft: the "producers left" answer of the most recent RemoveProducer.
+// r3cLookedUp / r3cRemOtherAtLookup: the answer of the most recent LookupRegistrations / the value of r3cRemOther at that moment.
+//@ ghost r3cWatchPeer string
+//@ ghost r3cRemProdSet set[Registration]
+//@ ghost r3cRemOther int
+//@ ghost r3cLastLeft int
+//@ ghost r3cLookedUp Registrations
+//@ ghost r3cRemOtherAtLookup int
+// r3cAddProdSet / r3cAddOther: the same for AddProducer(k, p): k is recorded when p.peerInfo.id is the watched id, counted otherwise.
+//@ ghost r3cAddProdSet set[Registration]
+//@ ghost r3cAddOther int
+//@ ghostgroup r3cAddProdSet, r3cAddOther
+//@ ghostgroup r3cRemProdSet, r3cRemOther, r3cLastLeft
+// r3cWatchLooked: the answer of the most recent LookupRegistrations(r3cWatchPeer).
+//@ ghost r3cWatchLooked Registrations
+//@ ghostgroup lookedUpID, lookedUpLen, r3cLookedUp, r3cRemOtherAtLookup, r3cWatchLooked
 //@ func (p *LookupProtocolV1) IOLoop(c protocol.Client) error
 //@   props C15 C14
 //@   ensures[cleanup] unbox(c, "*ClientV1").peerInfo != nil ==> lookedUpID == unbox(c, "*ClientV1").peerInfo.id && removedSinceLookup == lookedUpLen
+//   (round 3, area C) "an nsqd that disconnects is at once gone from EVERY producer list": the peer is removed from every registration the
+//   look-up returned (and the look-up returns every registration that holds the peer: LookupRegistrations [complete]); the clean-up
+//   removes no other peer from anything.
+//@   ensures[cleanup-every-registration] unbox(c, "*ClientV1").peerInfo != nil && unbox(c, "*ClientV1").peerInfo.id == r3cWatchPeer ==>
+//@        len(r3cLookedUp) == lookedUpLen && forall i int :: {r3cLookedUp[i]} 0 <= i && i < len(r3cLookedUp) ==> setin(r3cRemProdSet, r3cLookedUp[i])
+//@   ensures[never-touches-other-peers] addrString(remoteOf(unbox(c, "*ClientV1").Conn)) == r3cWatchPeer ==> r3cRemOther == old(r3cRemOther) && r3cAddOther == old(r3cAddOther)
+//@   ensures[cleanup-only-own] unbox(c, "*ClientV1").peerInfo != nil && unbox(c, "*ClientV1").peerInfo.id == r3cWatchPeer ==> r3cRemOther == r3cRemOtherAtLookup
+//@   loop 0
+//@     invariant[client] client == unbox(c, "*ClientV1") && r3cConnPeer(client)
+//@     invariant[others-untouched] addrString(remoteOf(client.Conn)) == r3cWatchPeer ==> r3cRemOther == old(r3cRemOther) && r3cAddOther == old(r3cAddOther)
 //@   loop 1
 //@     invariant client.peerInfo != nil && lookedUpID == client.peerInfo.id && lookedUpLen == len(registrations)
 //@     invariant removedSinceLookup == rangeindex + 1 && rangeindex < len(registrations)
+//@     invariant[looked-up] registrations == r3cLookedUp
+//@     invariant[removed-so-far] client.peerInfo.id == r3cWatchPeer ==> forall i int :: {r3cLookedUp[i]} 0 <= i && i <= rangeindex ==> setin(r3cRemProdSet, r3cLookedUp[i])
+//@     invariant[only-own] client.peerInfo.id == r3cWatchPeer ==> r3cRemOther == r3cRemOtherAtLookup
+//@     invariant[others-untouched] client == unbox(c, "*ClientV1") && r3cConnPeer(client) && (addrString(remoteOf(client.Conn)) == r3cWatchPeer ==> r3cRemOther == old(r3cRemOther) && r3cAddOther == old(r3cAddOther))
 //@   requires validP(p) && dyntype(c) == typetag("*ClientV1") && validC(unbox(c, "*ClientV1"))
+//@   requires[fresh-client] unbox(c, "*ClientV1").peerInfo == nil
 
 //@ func (rr Registrations) Keys() []string
 //@   props C14 C15
-//@   ensures[aligned] len(result) == len(rr) && forall i int :: {result[i]} 0 <= i && i < len(rr) ==> result[i] == rr[i].Key
+//@   ensures[aligned] len(result) == len(rr) && forall i int :: {result[i]} {rr[i]} 0 <= i && i < len(rr) ==> result[i] == rr[i].Key
 //@   ensures[fresh] fresh(result)
 //@   modifies
 //@   nochan
@@ -118,6 +206,8 @@ package nsqlookupd
 //@   ghostparam gk Registration
 //@   ghostparam gid string
 //@   requires r != nil && p != nil && p.peerInfo != nil
+//@   onreturn r3cAddProdSet := p.peerInfo.id == r3cWatchPeer ? setadd(r3cAddProdSet, k) : r3cAddProdSet
+//@   onreturn r3cAddOther := r3cAddOther + (p.peerInfo.id == r3cWatchPeer ? 0 : 1)
 //@   ensures[was-new] result == !atlock(hasProd(r, k, p.peerInfo.id))
 //@   ensures[present] atunlock(hasProd(r, k, p.peerInfo.id))
 //@   ensures[existing-kept] atlock(hasProd(r, k, p.peerInfo.id)) ==> atunlock(r.registrationMap[k][p.peerInfo.id]) == atlock(r.registrationMap[k][p.peerInfo.id])
@@ -127,8 +217,11 @@ package nsqlookupd
 
 //@ func (r *RegistrationDB) RemoveProducer(k Registration, id string) (bool, int)
 //@   props C14 C15
-//@   modifies r.registrationMap, mapstore(map[Registration]ProducerMap), mapstore(ProducerMap), removedSinceLookup
+//@   modifies r.registrationMap, mapstore(map[Registration]ProducerMap), mapstore(ProducerMap), removedSinceLookup, r3cRemProdSet
 //@   onreturn removedSinceLookup := removedSinceLookup + 1
+//@   onreturn r3cRemProdSet := id == r3cWatchPeer ? setadd(r3cRemProdSet, k) : r3cRemProdSet
+//@   onreturn r3cRemOther := r3cRemOther + (id == r3cWatchPeer ? 0 : 1)
+//@   onreturn r3cLastLeft := result1
 //@   ghostparam gk Registration
 //@   ghostparam gid string
 //@   requires r != nil
@@ -148,6 +241,10 @@ package nsqlookupd
 //@   ensures[gone] !atunlock(hasKey(r, k))
 //@   onreturn mRemCalls := mRemCalls + 1
 //@   onreturn mLastRem := k
+//@   onreturn r3cRemovedSet := setadd(r3cRemovedSet, k)
+//@   onreturn r3cRemAttempts := r3cRemAttempts + 1
+//@   onreturn r3cLastAttempt := k
+//@   onreturn r3cLastDropped := atlock(hasKey(r, k) ? len(r.registrationMap[k]) : 0)
 //@   ensures[other-keys] gk != k ==> (atunlock(hasKey(r, gk)) <==> atlock(hasKey(r, gk)))
 //@   ensures[others] gk != k ==> (atunlock(hasProd(r, gk, gid)) <==> atlock(hasProd(r, gk, gid)))
 
@@ -174,6 +271,16 @@ package nsqlookupd
 //@ ghost mLastRem Registration
 //@ ghost mTombCalls int
 //@ ghost mLastTomb *Producer
+// (round 3, area C) the SET of keys passed to RemoveRegistration so far / of producers tombstoned so far (grow only): "ALL of
+// them were removed" and "ONLY they were removed" are statements about these sets.
+//@ ghost r3cRemovedSet set[Registration]
+// r3cRemAttempts / r3cLastAttempt: number of attempts to remove a registration and the key of the most recent one (RemoveRegistration:
+// every call is an attempt and succeeds); r3cLastDropped: how many producers the registration removed last still held at the moment of
+// its removal (the lock point of RemoveRegistration) - they are wiped with it.
+//@ ghost r3cRemAttempts int
+//@ ghost r3cLastAttempt Registration
+//@ ghost r3cLastDropped int
+//@ ghost r3cTombSet set[*Producer]
 //@ ghost mFRTopic Registrations
 //@ ghost mFRTopicKey string
 //@ ghost mFRTopicSub string
@@ -196,9 +303,17 @@ package nsqlookupd
 //@   onreturn mFRChanKey := category == "channel" ? key : mFRChanKey
 //@   onreturn mFRChanSub := category == "channel" ? subkey : mFRChanSub
 //@   ensures[fresh] fresh(result)
+//   (round 3, area C) COMPLETE direction: every key of the map (at release of the read lock) that matches the query is returned, once.
+//@   ensures[complete] forall k Registration :: {atunlock(r.registrationMap[k])} atunlock(hasKey(r, k)) && matches(k, category, key, subkey) ==>
+//@        (exists i int :: {result[i]} 0 <= i && i < len(result) && result[i] == k)
+//@   ensures[no-duplicates] forall i1 int, i2 int :: {result[i1], result[i2]} 0 <= i1 && i1 < i2 && i2 < len(result) ==> result[i1] != result[i2]
 //@   loop 0
 //@     invariant fresh(results)
 //@     invariant forall i int :: {results[i]} 0 <= i && i < len(results) ==> hasKey(r, results[i]) && matches(results[i], category, key, subkey)
+//@     invariant[complete] forall k2 Registration :: {k2.Category} visited(k2) && matches(k2, category, key, subkey) ==>
+//@        (exists i int :: {results[i]} 0 <= i && i < len(results) && results[i] == k2)
+//@     invariant[from-visited] forall i int :: {results[i]} 0 <= i && i < len(results) ==> visited(results[i])
+//@     invariant[no-duplicates] forall i1 int, i2 int :: {results[i1], results[i2]} 0 <= i1 && i1 < i2 && i2 < len(results) ==> results[i1] != results[i2]
 
 // Every key returned has this peer among its producers.
 //@ func (r *RegistrationDB) LookupRegistrations(id string) Registrations
@@ -209,9 +324,21 @@ package nsqlookupd
 //@   onreturn lookedUpID := id
 //@   onreturn lookedUpLen := len(result)
 //@   onreturn removedSinceLookup := 0
+//@   onreturn r3cLookedUp := result
+//@   onreturn r3cWatchLooked := id == r3cWatchPeer ? result : r3cWatchLooked
+//@   onreturn r3cRemOtherAtLookup := r3cRemOther
+//   (round 3, area C) COMPLETE direction: every registration under which this peer is filed (at release of the read lock) is returned, once.
+//@   ensures[complete] forall k Registration :: {atunlock(r.registrationMap[k])} atunlock(hasProd(r, k, id)) ==>
+//@        (exists i int :: {result[i]} 0 <= i && i < len(result) && result[i] == k)
+//@   ensures[no-duplicates] forall i1 int, i2 int :: {result[i1], result[i2]} 0 <= i1 && i1 < i2 && i2 < len(result) ==> result[i1] != result[i2]
+//@   ensures[fresh] fresh(result)
 //@   loop 0
 //@     invariant fresh(results)
 //@     invariant forall i int :: {results[i]} 0 <= i && i < len(results) ==> hasProd(r, results[i], id)
+//@     invariant[complete] forall k2 Registration :: {r.registrationMap[k2]} visited(k2) && has(r.registrationMap[k2], id) ==>
+//@        (exists i int :: {results[i]} 0 <= i && i < len(results) && results[i] == k2)
+//@     invariant[from-visited] forall i int :: {results[i]} 0 <= i && i < len(results) ==> visited(results[i])
+//@     invariant[no-duplicates] forall i1 int, i2 int :: {results[i1], results[i2]} 0 <= i1 && i1 < i2 && i2 < len(results) ==> results[i1] != results[i2]
 
 //@ func (p *Producer) Tombstone()
 //@   props C14
@@ -219,4 +346,5 @@ package nsqlookupd
 //@   ensures[marked] p.tombstoned && p.tombstonedAt == lastNow
 //@   onreturn mTombCalls := mTombCalls + 1
 //@   onreturn mLastTomb := p
+//@   onreturn r3cTombSet := setadd(r3cTombSet, p)
 //@   modifies p.tombstoned, p.tombstonedAt, lastNow
